@@ -134,7 +134,9 @@ func (s *Sim) Cls() { s.eff("cls") }
 // Sleep implements evaluator.Platform.
 func (s *Sim) Sleep(d time.Duration) {
 	s.eff("sleep " + strconv.FormatInt(int64(d), 10))
-	s.NowNs += int64(d)
+	if d > 0 && int64(d) < 1<<50 {
+		s.NowNs += int64(d)
+	}
 	s.faultPoint(FPSleep)
 }
 
